@@ -139,6 +139,51 @@ impl SeekMachine<'_> {
         Ok(())
     }
 }
+impl SeekMachine<'_> {
+    /// Independent enumeration of the REFERENCE model alone (no real object involved): the set of
+    /// reference positions reachable within `depth` actions.  If the implementation is correct the
+    /// explorer must have found exactly these positions; a difference means the explorer skipped or
+    /// invented states (machinery error), it is never a verdict about the subject.
+    pub fn model_reachable(&self, depth: usize) -> std::collections::BTreeSet<(bool, u128, usize)> {
+        let bs = self.bs();
+        let start = match &self.init {
+            Init::Fresh => RPos { block: 0, byte: 0, beyond: false },
+            Init::CoreAt(b) => RPos { block: *b, byte: 0, beyond: *b >= self.limit() },
+            Init::CoreAtPlus1(b) => {
+                let p = RPos { block: *b, byte: 0, beyond: *b >= self.limit() };
+                if self.fits(p, 1) { self.advance(p, 1) } else { p }
+            }
+        };
+        let mut seen = std::collections::BTreeSet::new();
+        seen.insert((start.beyond, start.block, start.byte));
+        let mut frontier = vec![start];
+        for _ in 0..depth {
+            let mut next = vec![];
+            for p in &frontier {
+                let mut succ = vec![];
+                for (n, _k) in &self.applies {
+                    succ.push(if self.fits(*p, *n) { self.advance(*p, *n) } else { *p });
+                }
+                for (_t, pos) in &self.seeks {
+                    let block = pos / bs as u128;
+                    let byte = (pos % bs as u128) as usize;
+                    succ.push(if self.counter_fits(block) { RPos { block, byte, beyond: block >= self.limit() && !(block == self.limit() && byte == 0) } } else { *p });
+                }
+                for q in succ {
+                    if seen.insert((q.beyond, q.block, q.byte)) {
+                        next.push(q);
+                    }
+                }
+            }
+            frontier = next;
+        }
+        seen
+    }
+    /// positions encoded in the canonical keys of a finished BFS
+    pub fn positions_of_keys(keys: &[Vec<u8>]) -> std::collections::BTreeSet<(bool, u128, usize)> {
+        keys.iter().map(|k| (k[0] != 0, u128::from_le_bytes(k[1..17].try_into().unwrap()), u64::from_le_bytes(k[17..25].try_into().unwrap()) as usize)).collect()
+    }
+}
 pub fn hs(h: &[SAct]) -> String {
     h.iter().map(sact_s).collect::<Vec<_>>().join(", ")
 }
